@@ -265,7 +265,7 @@ class Check:
 
     # -- findings
     def open_findings(self):
-        return [f for f in self.known.get("open", []) if f.get("property") == self.prop]
+        return [f for f in self.known.get("open", []) if f.get("property") == self.prop or self.prop in f.get("also_seen_by", [])]
 
     def match_known(self, deviation, trigger=None):
         """Return the open finding matching this (deviation, trigger) or None."""
